@@ -1033,7 +1033,7 @@ func c01Gen(r *Run) {
 		}
 		for i := 0; i < nb; i++ {
 			var q []c01Stmt
-			for len(q) < 17 {
+			for len(q) < 19 { // k <= 14 and up to 4 more statements: never slice into spare capacity
 				q = append(q, c01BuilderSteps(c01RandomProgram(r.Rng, 8, false, true))...)
 			}
 			k := i % 15
